@@ -581,6 +581,15 @@ class Rewriter(ast.NodeTransformer):
             return ast.copy_location(ast.Expr(ast.Call(func=_name("__symdel__"), args=[obj, key], keywords=[])), node)
         return self.generic_visit(node)
 
+    def visit_SetComp(self, node):
+        self.generic_visit(node)
+        lc = ast.ListComp(elt=node.elt, generators=node.generators)
+        return ast.copy_location(ast.Call(func=_name("__symsetof__"), args=[lc], keywords=[]), node)
+
+    def visit_Set(self, node):
+        self.generic_visit(node)
+        return ast.copy_location(ast.Call(func=_name("__symsetof__"), args=[ast.List(elts=node.elts, ctx=ast.Load())], keywords=[]), node)
+
     def visit_JoinedStr(self, node):
         # f-strings only occur in logging arguments in lasio; keep but never with symbolic values
         return self.generic_visit(node)
@@ -643,6 +652,7 @@ def load_module(modname, path, shims, pkg_modules):
         __symdel__=symdel,
         __symmod__=symmod,
         __symin__=symin,
+        __symsetof__=b_set,
     )
     # importable by name (the pure-Python pickler looks classes up through sys.modules)
     pkg = sys.modules.get("lasio_sym")
